@@ -16,15 +16,24 @@ def buffer_rule(db, res, d):
     if not allocs:
         res.violated('C10.a', f.name + ':allocates', 'the buffering routine no longer allocates (rule cannot be evaluated)', f.loc)
         return
-    # newlen's definition chain
+    # the quantity compared with the hard limit (its name is taken from the test)
+    NL = None
+    for b_ in f.blocks:
+        c_ = f.cond_of(b_)
+        a_ = P.canon(c_[0]) if c_ else None
+        if a_ and a_[2] == lim and a_[1] in ('>', '<='):
+            NL = a_[0]
+    if NL is None:
+        res.violated('C10.a', f.name + ':limit-test', 'no comparison against %s in %s: nothing bounds the bytes retained for an unfinished line' % (lim, f.name), f.loc)
+        return
     defs = []
     incs = []
     for b, i, st in f.stmts():
         for dcl in nodes(st, lambda y: y.get('k') == 'decl'):
             for v in dcl['vars']:
-                if v['name'] == 'newlen' and 'init' in v:
+                if v['name'] == NL and 'init' in v:
                     defs.append(P.K(v['init']))
-        for a in nodes(st, lambda y: y.get('k') == 'assign' and P.K(y['l']) == 'newlen'):
+        for a in nodes(st, lambda y: y.get('k') == 'assign' and P.K(y['l']) == NL):
             incs.append((b, a))
     okdef = defs == ['(connp->%s_buf_size + len)' % d]
     lendef = None
@@ -46,17 +55,17 @@ def buffer_rule(db, res, d):
             continue
         n += 1
         facts = [a for a, bb in atoms]
-        if ('newlen', '<=', lim) not in facts:
+        if (NL, '<=', lim) not in facts:
             bad = end[3]
         # the header term must have been added on the path if a header is pending
-        if (hdr, '!=', '0') in facts and not any(x[0] == 'stmt' and any(P.K(a['l']) == 'newlen' for a in nodes(x[3], lambda y: y.get('k') == 'assign')) for x in seq):
+        if (hdr, '!=', '0') in facts and not any(x[0] == 'stmt' and any(P.K(a['l']) == NL for a in nodes(x[3], lambda y: y.get('k') == 'assign')) for x in seq):
             bad = end[3]
     res.check(bad is None and n > 0, 'C10.a', f.name + ':limit-before-growth', 'all %d paths to malloc/realloc pass the false edge of newlen > field_limit_hard' % n,
               'a path reaches malloc/realloc in %s without passing the hard-limit test (newlen <= %s): bytes retained for an unfinished line are unbounded' % (f.name, lim), (bad or {}).get('loc', f.loc))
     # the true edge returns an error
     for b in f.blocks:
         c = f.cond_of(b)
-        if c and P.canon(c[0]) == ('newlen', '>', lim):
+        if c and P.canon(c[0]) == (NL, '>', lim):
             okerr = all(end[0] == 'return' and lit_name(P.ret_value(end[3])) == 'HTP_ERROR' for atoms, events, end in P.enum_paths(f, (f.blocks[b]['succs'][0], -1)))
             res.check(okerr, 'C10.a', f.name + ':over-limit-is-error', 'exceeding the limit returns HTP_ERROR', 'exceeding the hard limit does not return an error (silent truncation)', c[0]['loc'])
     # allocation sizes
